@@ -17,6 +17,10 @@ REPO = "/repo"
 USE_WT = "--worktree" in sys.argv
 if USE_WT:
     sys.argv.remove("--worktree")
+# --first-hit: stop running further properties of a change once one check has reported it with a failing input
+FIRST_HIT = "--first-hit" in sys.argv
+if FIRST_HIT:
+    sys.argv.remove("--first-hit")
 
 
 def sh(cmd, **kw):
@@ -66,6 +70,8 @@ def main():
                 vio = [l for l in o.stdout.split("\n") if l.startswith("VIOLATION")]
                 res[p] = {"exit": o.returncode, "violations": vio[:6],
                           "with_failing_input": any("no-failing-input-found" not in l for l in vio)}
+                if FIRST_HIT and res[p]["exit"] == 1 and res[p]["with_failing_input"]:
+                    break
         finally:
             sh(["git", "-C", target, "checkout", "--", "."])
         json.dump({"id": sid, "results": res}, open(os.path.join(d, "result.json"), "w"), indent=1)
